@@ -183,13 +183,69 @@ def check_get(sc, st, ob):
         return "the key exists on a reachable holder, %d < ReadQuorum=%d copies obtained, Get returned %s" % (obtained_max, rq, ob["res"])
     if not exp and exists_reachable and obtained_max >= rq and ob["res"] != "ok":
         return "%d >= ReadQuorum=%d copies were obtained, Get returned %s" % (obtained_max, rq, ob["res"])
-    # read repair is off: the read changes nothing
     after = [ob["p"]] + ob["b"]
     before = [local] + bs
+    if sc.get("readrepair"):
+        # read repair is on: a successful read brings every reachable holder of an OLDER copy (and an owner without a copy) to the
+        # version it returned; no copy ever becomes anything else than what it was or that version
+        win = (ob.get("val"), ob.get("ts")) if ob["res"] == "ok" else None
+        for i, (a, b) in enumerate(zip(after, before)):
+            who = "the owner" if i == 0 else "backup owner %d" % (i - 1)
+            same = a["found"] == (b is not None) and (not a["found"] or (a.get("ts") == b and not a.get("corrupt")
+                                                       and a.get("val") == ("p@%d" % b if i == 0 else "b%d@%d" % (i - 1, b))))
+            iswin = win is not None and a["found"] and not a.get("corrupt") and (a.get("val"), a.get("ts")) == win
+            if not same and not iswin:
+                return "after the read %s holds %r (before: version %s; the read returned %r)" % (who, a, b, win)
+            reachable = i == 0 or (i - 1) not in down
+            if win is not None and reachable and not iswin and ((b is not None and b < win[1]) or (i == 0 and b is None)):
+                return "read repair left %s with version %s, the read returned version %s" % (who, b, win[1])
+        return None
+    # read repair is off: the read changes nothing
     for i, (a, b) in enumerate(zip(after, before)):
         if a["found"] != (b is not None) or (a["found"] and a.get("ts") != b):
             return "the read changed holder %d's copy (read repair is off)" % i
     return None
+
+
+def rr_scenario(sid, r, rq, rng):
+    """reads with ReadRepair on over every layout of copies (owner absent/present x every backup owner none/copy/unreachable)"""
+    nb = r - 1
+    steps = []
+    states = ["none", "copy", "copy-down"]
+    for n, lay in enumerate(itertools.product([False, True], *([states] * nb))):
+        tss = [rng.randrange(1, 5) for _ in range(1 + nb)]
+        st = {"op": "get", "key": "rr%d-%d-%d" % (r, rq, n), "local": tss[0] if lay[0] else None, "backups": [], "down": [], "expired": []}
+        for i, s_ in enumerate(lay[1:]):
+            st["backups"].append(tss[1 + i] if s_ in ("copy", "copy-down") else None)
+            if s_.endswith("-down"):
+                st["down"].append(i)
+        steps.append(st)
+    return {"id": sid, "kind": "rw", "members": members_for(r), "r": r, "w": 1, "rq": rq, "table": TABLE, "steps": steps, "readrepair": True}
+
+
+def rr_part(res, pid):
+    """used by C05 and C17: what a read with ReadRepair on leaves on the holders"""
+    import random
+    scs = [rr_scenario(9500 + j, r_, rq_, random.Random(res.seed * 77 + j))
+           for j, (r_, rq_) in enumerate([(2, 1), (3, 1), (3, 2)] if res.tier == "thorough" else [(2, 1), (3, 2)])]
+    out = qlib.run_harness("quorum", [qlib.strip(q) for q in scs], jobs=3)
+    n = 0
+    for q in scs:
+        ob = out[q["id"]]
+        if ob.get("env"):
+            res.coverage.setdefault("env_failures", []).append(ob["env"])
+            continue
+        for i, st in enumerate(q["steps"]):
+            if i >= len(ob.get("steps", [])):
+                break
+            n += 1
+            m = check_get(q, st, ob["steps"][i])
+            if m:
+                res.violation({"kind": "impl-violates-property", "part": "read-repair", "scenario": dict(qlib.strip(q), steps=[st]),
+                               "impl_trace": ob["steps"][i], "predicate": {"name": "read with ReadRepair on", "verdict": m}, "seed": res.seed})
+                break
+    res.coverage["read_repair_steps"] = n
+    return n
 
 
 def check_incr(sc, st, ob):
@@ -450,6 +506,7 @@ def run(res):
             if st.get("down"):
                 nt.add(json.dumps([s["r"], s["w"], s["rq"], st["op"], sorted(st["down"]), st.get("local") is not None,
                                    [b is not None for b in st.get("backups", [])]]))
+    rr_part(res, PID)
     sample = next((s for s in scs if s["kind"] == "rw" and s["r"] == 3), scs[-1])
     res.coverage.update({
         "evaluations": nsteps + hist.get("raw-command-below-quorum", 0), "scenarios": len(scs), "distinct_nontrivial": len(nt),
